@@ -90,6 +90,8 @@ macro_rules! make_greater_than_func_slow_path {
                         unreachable!("values {:?} and {:?}", left, right)
                     }
                 }
+                // Lists are orderable when their contents are: lexicographic order, as in `FieldValue`'s `PartialOrd`.
+                (FieldValue::List(_), FieldValue::List(_)) => left $op right,
                 _ => unreachable!("values {:?} and {:?}", left, right)
             }
         }
@@ -123,6 +125,8 @@ macro_rules! make_less_than_func_slow_path {
                         unreachable!("values {:?} and {:?}", left, right)
                     }
                 }
+                // Lists are orderable when their contents are: lexicographic order, as in `FieldValue`'s `PartialOrd`.
+                (FieldValue::List(_), FieldValue::List(_)) => left $op right,
                 _ => unreachable!("values {:?} and {:?}", left, right)
             }
         }
